@@ -26,6 +26,7 @@ EXPLANATION = (
     " Added since: R06.3 follows the dtype of every Tensor/Number built by a ground eager rule for a class of ops back to find_domain; R06.6 a Slice's stop reaches construction clamped to dtype."
     ' Round 4: R06.7 (= R01.11) rules for parametrised ops mention their op instance; R06.8 constant sizes in the find_domain rule of the cast op only for dtypes with that many values; R06.9 (= R04.4) a distributed substitution reaches every operand that mentions a key.'
     " Round 6: R06.10 batch/event boundary computed from the array's own tensor; R06.11 axis labels in the order of the tensor's own inputs; R06.12 slice-length expressions equal len(range(start, stop, step)) on a grid; R06.13 Number/Tensor branches of an eager_subs agree in data and dtype."
+    ' R06.20 (exhaustiveness): every unary op that find_domain types by the generic UnaryOp rule (same shape, same dtype) is elementwise - its array implementations call no numpy function of a frozen table of shape-changing / dtype-changing calls (expand_dims, transpose, swapaxes, broadcast_to, diagonal, argmax, argmin, arange, zeros, full, eye, randn, squeeze, isnan ...; `return x.reshape(..)` style methods); implementations outside both tables are unresolved. R06.3 also covers Number.eager_unary / Tensor.eager_unary.'
 )
 ASSUMPTIONS = [
     "values/shapes actually returned by op implementations on arrays are not decided (runtime)",
